@@ -582,12 +582,18 @@ pub fn write_ops<T: Spec>(ops: &[WOp]) -> Result<Vec<u8>, (usize, WErr)> {
 
 pub const SAFE_ALLOC: u64 = 4 << 20;
 
-/// largest vint value readable at ANY offset of the input that does not exceed `limit`
-/// (every size field the iterator can ever parse starts at some input offset, so this is a sound bound)
+/// largest size a header-shaped byte sequence (id, then size vint) starting at ANY offset of the input can declare without
+/// exceeding `limit`. Every size field the iterator can ever parse follows an id that starts at some input offset, whatever
+/// path (recovery, mis-synchronisation after a defect) led there, so this is a sound bound — and much tighter than looking
+/// for vints at every offset, because 4-byte ids such as 1A 45 DF A3 are themselves "vints" of hundreds of MiB.
 pub fn max_declarable_size(b: &[u8], limit: u64) -> u64 {
     let mut m = 0u64;
     for i in 0..b.len() {
-        if let crate::refmodel::VintRead::Ok { value, len } = crate::refmodel::ref_read_vint(&b[i..]) {
+        let id_len = if b[i] == 0 { 1 } else { b[i].leading_zeros() as usize + 1 };
+        if i + id_len >= b.len() {
+            continue;
+        }
+        if let crate::refmodel::VintRead::Ok { value, len } = crate::refmodel::ref_read_vint(&b[i + id_len..]) {
             if value != (1u64 << (7 * len)) - 1 && value <= limit && value > m {
                 m = value;
             }
